@@ -3,6 +3,50 @@ import json, os
 from lib import vlib
 
 
+MC_CFG = """CONSTANTS D <- TD
+  R <- TR
+  Msgs <- TMsgs
+  Regs <- TRegs
+  MaxCalls = 100000
+  MaxRegs = 100000
+  Locked = TRUE
+INIT TInit
+NEXT TNext
+CONSTRAINT HW
+POSTCONDITION Post
+CHECK_DEADLOCK FALSE
+"""
+MC_FIELDS = [("ev", ""), ("p", ""), ("app", 0), ("code", 0), ("req", False), ("short", ""), ("t", ""), ("name", ""), ("hid", 0)]
+
+
+def concurrent(ctx, v, n):
+    """Registration concurrent with dispatch: R1 on MuxImpl (RW lock, handler called under the read lock) with its
+    sensitivity configurations, then recorded concurrent histories of a real ServeMux against MuxImplTrace."""
+    r1 = vlib.tlc_check(ctx.scratch, "MuxImplMC", "MuxImpl_TRUE.cfg" if ctx.tier == "quick" else "MuxImpl_thorough.cfg", workers=8, heap_mb=12000, timeout=1800)
+    vlib.tlc_check(ctx.scratch, "MuxImplMC", "MuxImpl_FALSE.cfg", workers=1, expect_violation="NoCrash")
+    vlib.tlc_check(ctx.scratch, "MuxImplMC", "MuxImpl_waits.cfg", workers=1, expect_violation="NeverWaitsBehindHandler")
+    d = ctx.scratch.sub("mc")
+    tpath = os.path.join(d, "trace.ndjson")
+    p = vlib.run_harness(ctx.harness, ["muxconc", "-out", tpath, "-seed", str(ctx.seed), "-n", str(n), "-repo", vlib.REPO], timeout=600)
+    if p.returncode != 0:
+        if "fatal error" in p.stderr or "panic" in p.stderr:
+            v.report("concurrent:process-died", dict(driver="muxconc", seed=ctx.seed), detail=p.stderr[-300:].replace("\n", " "))
+            return dict(status="died", scenarios=0, tlc_states=r1["distinct"]), r1
+        raise vlib.Infra("muxconc driver failed: " + p.stderr[-2000:])
+    scen = vlib.read_ndjson(tpath)
+    conf = vlib.impl_conformance(ctx, "MuxImplTrace", MC_CFG.replace("Locked = TRUE", "Locked = FALSE"), scen, MC_FIELDS, "mc")
+    strict = vlib.impl_conformance(ctx, "MuxImplTrace", MC_CFG, scen[:200], MC_FIELDS, "mcs")
+    conf["lock_discipline"] = dict(status=strict["status"], drift=strict.get("drift", [])[:2])
+    if conf["status"] == "inconclusive":
+        raise vlib.Infra("MuxImplTrace validation inconclusive: %s" % conf.get("detail"))
+    for dr in conf["drift"]:
+        stuck = dr.get("stuck_at") or {}
+        v.report("concurrent:%s-not-explained" % stuck.get("ev", "?"), dict(driver="muxconc", seed=ctx.seed, case=dr.get("case")),
+                 detail="no interleaving of MuxImpl explains the log at event %s: %s" % (dr.get("stuck_index"), " ".join(dr.get("events", [])[:60])))
+    ctx.log("concurrent: MuxImpl %d distinct states (lookups see completed registrations; no lock => crash; a registration behind a held handler blocks other dispatchers: documented); %d recorded concurrent histories, %d not linearizable; lock discipline of the model: %s" % (r1["distinct"], conf["scenarios"], len(conf["drift"]), strict["status"]))
+    return conf, r1
+
+
 def run(ctx):
     quick = ctx.tier == "quick"
     if ctx.replay:
@@ -29,14 +73,15 @@ def run(ctx):
         types = sorted(set(r["t"] for r in line["regs"]))
         sig = "%s:dispatch:%s:regs=%s:fired=%d:reports=%d" % (line["via"], "req" if line["msg"]["req"] else "ans", "+".join(types), len(line["fired"]), line["reports"])
         v.report(sig, dict(msg=line["msg"], short=line["gshort"], regs=line["regs"]), detail="fired=%s reports=%d" % (line["fired"], line["reports"]))
+    conf, mr1 = (dict(status="skipped"), dict(distinct=0, generated=0)) if ctx.replay and "driver" not in json.load(open(ctx.replay)).get("case", {}) else concurrent(ctx, v, 80 if quick else 1200)
     keys = set()
     for l in lines:
         if len(l["regs"]) >= 2:
             keys.add((l["via"], json.dumps(l["msg"], sort_keys=True), json.dumps(l["regs"], sort_keys=True)))
-    cov = dict(states=g["distinct"] + st["distinct"], transitions=g["generated"] + st["generated"],
+    cov = dict(states=g["distinct"] + st["distinct"] + mr1["distinct"], transitions=g["generated"] + st["generated"] + mr1["generated"], concurrent_conformance=conf,
                traces_validated_against_impl=len(lines), evaluations=len(lines), distinct_nontrivial=len(keys),
                rule="every subset of the 8-key neighbourhood (own index/name/ALL, neighbours differing in application, code, R bit) x 6 messages, plus re-registration of registered keys, "
-                    "replayed on a real ServeMux directly and (every 8th case) behind a connection over memnet; non-trivial = at least two registrations; distinct by (path, message, registration history) Since extended: base commands under an application id no dictionary defines; every third case after a warm-up dispatch of the same index carrying a dictionary that lacks the command.",
+                    "replayed on a real ServeMux directly and (every 8th case) behind a connection over memnet; non-trivial = at least two registrations; distinct by (path, message, registration history) Since extended: base commands under an application id no dictionary defines; every third case after a warm-up dispatch of the same index carrying a dictionary that lacks the command; registrations concurrent with dispatch: spec/MuxImpl.tla (RW lock with writer preference, handler called under the read lock) model-checked for 2 dispatchers x 2 calls and 2 registrars x 1 (thorough: 2) registrations, and recorded concurrent histories (3 dispatchers, 2 registrars, handlers of several durations) validated against it with the lock operations as silent steps.",
                samples=[dict(msg=l["msg"], regs=l["regs"][:3], fired=l["fired"], reports=l["reports"]) for l in lines[5:len(lines):max(1, len(lines) // 3)]][:3],
                exhaustive=True, rejected_lines=len(bad), known_finding_hits={k: n for k, (n, _) in v.hits.items()})
     rc = v.finish()
